@@ -1,5 +1,5 @@
 SPECIFICATION ImplSpec
-CONSTANTS DurSet = {0, 1, 2, 5}  TargetSet = {0, 1, 4, 7}  MaxStages = 3  MaxT = 13
+CONSTANTS DurSet = {0, 1, 2, 5}  TargetSet <- MC_Targets_B  MaxStages = 3  MaxT = 13
 INVARIANTS ZeroAfterEnd WithinTargets ImplAlwaysAllowed
 PROPERTIES CursorMonotone
 CHECK_DEADLOCK TRUE
